@@ -14,6 +14,50 @@ def check_check_cancellation():
             ctx.check_cancellation()
         except asyncio.CancelledError:
             out.append("check_cancellation raised without any cancellation request")
+        # "does not raise otherwise": somebody else's cancellation is not a request to this task - inside the handler of
+        # a cancelled child (awaited task, spawned task of a scope, timed-out wait), after it, and in a finally block
+        for where in ("an awaited child task that was cancelled", "a task spawned into the scope and then cancelled",
+                      "a wait that timed out"):
+            async def forever():
+                await asyncio.Event().wait()
+            async with ctx.scope("observer"):
+                if where.startswith("an awaited"):
+                    child = asyncio.ensure_future(forever())
+                elif where.startswith("a task spawned"):
+                    child = ctx.spawn(forever)
+                else:
+                    child = None
+                await asyncio.sleep(0)
+                try:
+                    if child is None:
+                        await asyncio.wait_for(forever(), 0.01)
+                    else:
+                        child.cancel()
+                        await child
+                except (asyncio.CancelledError, TimeoutError):
+                    if asyncio.current_task().cancelling() == 0:
+                        try:
+                            ctx.check_cancellation()
+                        except asyncio.CancelledError:
+                            out.append(f"check_cancellation raised inside the handler of {where} although nobody asked "
+                                       "this task to cancel (Task.cancelling() == 0)")
+                        finally:
+                            try:
+                                ctx.check_cancellation()
+                            except asyncio.CancelledError:
+                                out.append(f"check_cancellation raised in a finally block while handling {where} although "
+                                           "nobody asked this task to cancel")
+                try:
+                    ctx.check_cancellation()
+                except asyncio.CancelledError:
+                    out.append(f"check_cancellation raised after {where} was handled although nobody asked this task to cancel")
+        try:
+            raise KeyError("unrelated")
+        except KeyError:
+            try:
+                ctx.check_cancellation()
+            except asyncio.CancelledError:
+                out.append("check_cancellation raised inside the handler of an unrelated exception")
         asyncio.current_task().cancel()
         try:
             ctx.check_cancellation()
